@@ -47,7 +47,7 @@ FAMILIES = {
     "var_s": fam(Ctors=["var", "map"], Fs1=["id"], Ops=["set", "update", "modify", "replace", "replace_with"],
                  MaxNodes=3, MaxObs=2, MaxActs=9, MaxRounds=3),
     # user functions that panic at their k-th run: crash-point enumeration (C13)
-    "panic_s": fam(Ctors=["var", "map", "map2"], Fs1=["id"], Effs=["panic", "h_panic"], MaxNodes=3, MaxObs=2, MaxSubs=1, MaxActs=8, MaxRounds=3),
+    "panic_s": fam(Ctors=["var", "map", "map2"], Fs1=["id"], Effs=["panic", "h_panic"], MaxNodes=3, MaxObs=2, MaxSubs=1, MaxActs=7, MaxRounds=3),
     # user functions that write vars / read observers while stabilising (C08, C07)
     "eff_s": fam(Ctors=["var", "map", "drop"], Fs1=["id"], Effs=["set", "read", "set_drop"], Ops=["set", "update"],
                  MaxVars=2, MaxNodes=3, MaxObs=1, MaxActs=6, MaxRounds=3),
@@ -148,7 +148,8 @@ PROPS = {
     "C01": dict(families=plan("core_s", "ref_s", "pick_q", "mwo4_s", sim="sim_engine"), random=RND),
     "C02": dict(random=RND, families=plan("bind_s", "nest_s", "p_bindtall", "p_grow", sim="sim_engine")),
     "C03": dict(random=RND, families=plan("leak_s", "bind_s", sim="sim_engine")),
-    "C04": dict(families=plan("leak_s", "xjoin_s", "obsfx_s", sim="sim_engine"), profiles=["debug", "release"], random=dict(quick=24, thorough=300, len=40)),
+    "C04": dict(families=plan("leak_s", "xjoin_s", "obsfx_s", "leak_s@release", "xjoin_s@release", sim="sim_engine"),
+                random=dict(quick=48, thorough=600, len=40)),
     "C05": dict(random=RND, families=plan("obs_s", "obsfx_s", "pick_q", sim="sim_engine")),
     "C06": dict(random=RND, families=plan("cut_s", "mwo4_s", "p_cutreobs", "p_refcut", sim="sim_engine")),
     "C07": dict(random=RND, families=plan("obs_s", "eff_s", "p_update", sim="sim_engine")),
